@@ -53,8 +53,22 @@ func executor(m *monitor) *kmipserver.BatchExecutor {
 			kmipserver.SetIdPlaceholder(ctx, strings.TrimPrefix(p.UniqueIdentifier, "alias:"))
 			m.aliases.Add(1)
 		}
-		return next(ctx, bi)
+		resp, err := next(ctx, bi)
+		if p, ok := bi.RequestPayload.(*payloads.ActivateRequestPayload); ok && p != nil && strings.HasPrefix(p.UniqueIdentifier, "post:") && err == nil {
+			// identifier translation on the way back: stored once the rest of the item chain has returned
+			kmipserver.SetIdPlaceholder(ctx, strings.TrimPrefix(p.UniqueIdentifier, "post:"))
+			m.aliases.Add(1)
+		}
+		return resp, err
 	})
+	// two more item stages that only pass on: three stages in a slice of capacity four, as an application that adds
+	// its stages one by one ends up with
+	for k := 0; k < 2; k++ {
+		ex.BatchItemUse(func(next kmipserver.BatchItemNext, ctx context.Context, bi *kmip.RequestBatchItem) (*kmip.ResponseBatchItem, error) {
+			runtime.Gosched()
+			return next(ctx, bi)
+		})
+	}
 	enter := func() {
 		if m.inside.Add(1) > 1 {
 			m.overlap.Add(1)
@@ -65,7 +79,7 @@ func executor(m *monitor) *kmipserver.BatchExecutor {
 	ex.Route(kmip.OperationActivate, kmipserver.HandleFunc(func(ctx context.Context, req *payloads.ActivateRequestPayload) (*payloads.ActivateResponsePayload, error) {
 		enter()
 		defer leave()
-		if strings.HasPrefix(req.UniqueIdentifier, "alias:") {
+		if strings.HasPrefix(req.UniqueIdentifier, "alias:") || strings.HasPrefix(req.UniqueIdentifier, "post:") {
 			// resolved (and stored) by the alias stage in front of the handlers; nothing to store here
 			return &payloads.ActivateResponsePayload{UniqueIdentifier: req.UniqueIdentifier}, nil
 		}
@@ -166,8 +180,11 @@ func build(reqID string, prog []int) *kmip.RequestMessage {
 		switch a {
 		case aSet:
 			v := setValue(reqID, i)
-			if core.Hash64(v)%4 == 3 {
+			switch core.Hash64(v) % 6 {
+			case 3:
 				v = "alias:" + v
+			case 4:
+				v = "post:" + v
 			}
 			bi.Operation, bi.RequestPayload = kmip.OperationActivate, &payloads.ActivateRequestPayload{UniqueIdentifier: v}
 		case aRead:
